@@ -22,10 +22,6 @@ package client
 
 // ---- property C09: an exchange succeeds only with a reply that answers the request sent
 
-//@ func (*client.Client).sendToKDC(cl, b, realm) (rb, err)
-//@   pure
-//@   trusted_frame network I/O only; the reply bytes are arbitrary (property C12 is about which server answers)
-
 //@ func (*client.Client).IsConfigured(cl) (ok, err)
 //@   pure
 //@   trusted_frame reads the client's credentials and configuration
@@ -94,3 +90,55 @@ package client
 //@   pure
 //@   trusted_frame lock state only
 //@   ensures tgt == atlock(s.tgt) && key == atlock(s.sessionKey)
+
+// ---- property C12: which KDC answers. The network is arbitrary (every dial, write and read may fail); ghost
+// dialCount counts connection attempts, ghost sendUDPCalls / sendTCPCalls count uses of each transport and
+// lastUDPErr / lastTCPErr record what each transport returned.
+//@ ghost sendUDPCalls int
+//@ ghost sendTCPCalls int
+//@ ghost lastUDPErr error
+//@ ghost lastTCPErr error
+
+// Each configured server is tried in preference order until one answers: the call gives up only after
+// len(kdcs) connection attempts, and never makes more.
+//@ func client.dialSendUDP(kdcs, b) (r, err)
+//@   ensures err != nil ==> dialCount - old(dialCount) == len(kdcs)
+//@   ensures err == nil ==> dialCount - old(dialCount) <= len(kdcs) && dialCount - old(dialCount) >= 1 && len(r) >= 1
+//@   loop 1 invariant i >= 1 && i <= len(kdcs) + 1 && dialCount - old(dialCount) == i - 1
+//@ func client.dialSendTCP(kdcs, b) (r, err)
+//@   ensures err != nil ==> dialCount - old(dialCount) == len(kdcs)
+//@   ensures err == nil ==> dialCount - old(dialCount) <= len(kdcs) && dialCount - old(dialCount) >= 1 && len(r) >= 1
+//@   loop 1 invariant i >= 1 && i <= len(kdcs) + 1 && dialCount - old(dialCount) == i - 1
+
+// The whole length header and the whole reply are read (RFC 4120 7.2.2): no short read goes unnoticed.
+//@ func client.sendTCP(conn, b) (r, err)
+//@   ensures err == nil ==> (tcpShortRead <==> old(tcpShortRead)) && len(r) >= 1
+//@ func client.sendUDP(conn, b) (r, err)
+//@   ensures err == nil ==> len(r) >= 1
+
+//@ func (*client.Client).sendKDCUDP(cl, realm, b) (r, err)
+//@   sets sendUDPCalls := sendUDPCalls + 1
+//@   sets lastUDPErr := err
+//@ func (*client.Client).sendKDCTCP(cl, realm, b) (r, err)
+//@   sets sendTCPCalls := sendTCPCalls + 1
+//@   sets lastTCPErr := err
+
+//@ define is_krberr(e) := tagof(e) == typeid("messages.KRBError")
+//@ define same_code(a, b) := is_krberr(a) && is_krberr(b) && unbox(a, "messages.KRBError").ErrorCode == unbox(b, "messages.KRBError").ErrorCode
+
+// sendToKDC: transport order by udp_preference_limit, a KRB-ERROR from a KDC is surfaced with its error code, and the
+// other transport is tried after a KRB-ERROR only for UDP's KRB_ERR_RESPONSE_TOO_BIG (52).
+//@ define udp_first(cl, b) := cl.Config.LibDefaults.UDPPreferenceLimit != 1 && len(b) <= cl.Config.LibDefaults.UDPPreferenceLimit
+//@ define tcp_only(cl) := cl.Config.LibDefaults.UDPPreferenceLimit == 1
+//@ func (*client.Client).sendToKDC(cl, b, realm) (rb, err)
+//@   pure
+//@   trusted_frame network I/O only
+//@   ensures tcp_only(cl) ==> sendTCPCalls - old(sendTCPCalls) == 1 && sendUDPCalls == old(sendUDPCalls) && (lastTCPErr == nil <==> err == nil) && (is_krberr(lastTCPErr) ==> same_code(err, lastTCPErr))
+//@   ensures udp_first(cl, b) ==> sendUDPCalls - old(sendUDPCalls) == 1
+//@   ensures udp_first(cl, b) && lastUDPErr == nil ==> err == nil && sendTCPCalls == old(sendTCPCalls)
+//@   ensures udp_first(cl, b) && is_krberr(lastUDPErr) && unbox(lastUDPErr, "messages.KRBError").ErrorCode != 52 ==> same_code(err, lastUDPErr) && sendTCPCalls == old(sendTCPCalls)
+//@   ensures udp_first(cl, b) && lastUDPErr != nil && !(is_krberr(lastUDPErr) && unbox(lastUDPErr, "messages.KRBError").ErrorCode != 52) ==> sendTCPCalls - old(sendTCPCalls) == 1 && (lastTCPErr == nil <==> err == nil) && (is_krberr(lastTCPErr) ==> same_code(err, lastTCPErr))
+//@   ensures !tcp_only(cl) && !udp_first(cl, b) ==> sendTCPCalls - old(sendTCPCalls) == 1
+//@   ensures !tcp_only(cl) && !udp_first(cl, b) && lastTCPErr == nil ==> err == nil && sendUDPCalls == old(sendUDPCalls)
+//@   ensures !tcp_only(cl) && !udp_first(cl, b) && is_krberr(lastTCPErr) ==> same_code(err, lastTCPErr) && sendUDPCalls == old(sendUDPCalls)
+//@   ensures !tcp_only(cl) && !udp_first(cl, b) && lastTCPErr != nil && !is_krberr(lastTCPErr) ==> sendUDPCalls - old(sendUDPCalls) == 1 && (lastUDPErr == nil <==> err == nil) && (is_krberr(lastUDPErr) ==> same_code(err, lastUDPErr))
